@@ -63,7 +63,7 @@ def relclose(a, b, rt=RT):
     return bool(np.max(np.abs(a - b)) <= rt * max(float(np.max(np.abs(b))), 1e-300))
 
 
-def make(ctx, rng, point_symmetric=False):
+def make(ctx, rng, point_symmetric=False, many=False):
     aa = ctx.aa
     H, W = int(rng.integers(1, 7)), int(rng.integers(2, 7))
     m, fam = gen.random_mask(rng, H, W)
@@ -81,6 +81,12 @@ def make(ctx, rng, point_symmetric=False):
         fam = fam + "+point_symmetric"
     mask = aa.Mask2D(mask=m.copy(), pixel_scales=ps, origin=origin)
     K = int(rng.integers(1, 13)) if rng.random() < 0.1 else int(rng.integers(3, 13))
+    if many:
+        # realistic numbers of visibilities (thousands), next to and away from powers of two (block / chunk boundaries)
+        K = int(2 ** int(rng.integers(9, 14)) * int(rng.integers(1, 3)) + int(rng.choice([-1, 0, 1, int(rng.integers(2, 500))]))) \
+            if rng.random() < 0.7 else int(rng.integers(1000, 13000))
+        if many == "hundreds":          # the un-jitted direct sums loop over baselines in Python
+            K = int(rng.integers(200, 900))
     mag = np.exp(rng.uniform(np.log(1e2), np.log(1e6), size=K))
     ang = rng.uniform(0, 2 * np.pi, size=K)
     uv = np.stack([mag * np.cos(ang), mag * np.sin(ang)], axis=1)
@@ -99,7 +105,7 @@ def run_op(ctx, i):
     rng = gen.rng_for(ctx.seed, NO, 1, i)
     if not ctx.begin("op:%d" % i):
         return
-    c = make(ctx, rng)
+    c = make(ctx, rng, many="hundreds" if i % 40 == 13 else False)
     m, mask, A, uv, n, K = c["m"], c["mask"], c["A"], c["uv"], c["n"], c["K"]
     W = dict(mask=m, scales=c["ps"], origin=c["origin"], uv=uv)
     full = rng.normal(size=m.shape) * float(np.exp(rng.uniform(-2, 3)))
@@ -196,7 +202,8 @@ def run_inv(ctx, i):
     if not ctx.begin("inv:%d" % i):
         return
     sym = (i % 5 == 0)
-    c = make(ctx, rng, point_symmetric=sym)
+    many = (i % 25 == 7)
+    c = make(ctx, rng, point_symmetric=sym, many=many)
     m, mask, A, uv, n, K = c["m"], c["mask"], c["A"], c["uv"], c["n"], c["K"]
     W = dict(mask=m, scales=c["ps"], origin=c["origin"], uv=uv)
     Func = gen_aa.func_list_class(aa)
@@ -272,7 +279,8 @@ def run_inv(ctx, i):
         ctx.skipped["reconstruction:InversionException(allowed)"] += 1
     except Exception as e:
         ctx.check(False, "normal_equations.mapped", exception=repr(e)[:300], **W)
-    ctx.case("inv", m, uv, Vd, Nz, B, nontrivial=(n >= 2 and K >= 2), cls=["inversion", "objs:" + "+".join(d["kind"] for d in desc)],
+    ctx.case("inv", m, uv, Vd, Nz, B, nontrivial=(n >= 2 and K >= 2), cls=["inversion", "objs:" + "+".join(d["kind"] for d in desc),
+                                                                        "visibilities:" + ("<=12" if K <= 12 else "<=4096" if K <= 4096 else ">4096")],
              sample=lambda: {"mask": m.astype(int).tolist(), "baselines": K, "objects": desc, "preload": preload})
 
 
